@@ -5,11 +5,11 @@ package bridgesync
 
 // ---- global index (C19): value = flag * 2^64 + rollup * 2^32 + leaf  (rollup forced to 0 for mainnet)
 
-//@ func GenerateGlobalIndex
+//@ func GenerateGlobalIndex (mainnetFlag, rollupIndex, localExitRootIndex)
 //@   props C19
 //@   ensures[layout] result != nil && bigval(result) == ite(mainnetFlag, 18446744073709551616, rollupIndex * 4294967296) + localExitRootIndex
 
-//@ func DecodeGlobalIndex
+//@ func DecodeGlobalIndex (globalIndex)
 //@   props C19
 //@   requires globalIndex != nil
 // one proof per byte length of the value (0..9 bytes are the values below 2^72, longer ones are the last case)
@@ -53,7 +53,7 @@ package bridgesync
 //@ spec fn cat7(a Bytes, b Bytes, c Bytes, d Bytes, e Bytes, f Bytes, g Bytes) Bytes = catB(catB(catB(catB(catB(catB(catB(emptyB(), a), b), c), d), e), f), g)
 //@ spec fn leafValue(leafType int, originNetwork int, originAddress Addr, destinationNetwork int, destinationAddress Addr, amount int, metadata Bytes) Hash = keccak(cat7(bytes1(leafType), beNB(originNetwork, 4), bytesOf(ab(originAddress), 20), beNB(destinationNetwork, 4), bytesOf(ab(destinationAddress), 20), beNB(amount, 32), bytesOf(hb(keccak(catB(emptyB(), metadata))), 32)))
 
-//@ func (b *Bridge) Hash
+//@ func (b *Bridge) Hash (b)
 //@   props C01 C03
 //@   requires b != nil && b.Amount != nil
 //@   requires 0 <= bigval(b.Amount) && bigval(b.Amount) < 115792089237316195423570985008687907853269984665640564039457584007913129639936
@@ -62,7 +62,7 @@ package bridgesync
 //@   ensures[unchanged] b.Amount == old(b.Amount)
 
 // Bridge.Hash, second behaviour: any bridge (nil amount, unconstrained amount): nothing is assumed about the value.
-//@ func (b *Bridge) Hash
+//@ func (b *Bridge) Hash (b)
 //@   behavior any
 //@   trusted
 //@   requires b != nil
@@ -70,7 +70,7 @@ package bridgesync
 
 // ---- block processing (C07: all-or-nothing; C14: fail-stop) and reorg (C04, C14)
 
-//@ func (p *processor) ProcessBlock
+//@ func (p *processor) ProcessBlock (p, ctx, block)
 //@   props C01 C07 C14
 //@   requires p != nil && p.db != nil && p.log != nil && p.exitTree != nil && p.exitTree.Tree != nil && len(p.exitTree.zeroHashes) == 33
 //@   requires lastTx < heapTop
@@ -97,7 +97,7 @@ package bridgesync
 //@   loop 0 invariant stmtFail == old(stmtFail) && (leafCalls == old(leafCalls) || lastLeafErr == nil)
 //@   loop 0 invariant tx != nil && lastTx == tx && tx != old(lastTx) && txState(tx) == 0
 
-//@ func (p *processor) Reorg
+//@ func (p *processor) Reorg (p, ctx, firstReorgedBlock)
 //@   props C04 C14
 //@   sqltext "DELETE FROM block WHERE num >= $1;"
 //@   requires p != nil && p.db != nil && p.log != nil && p.exitTree != nil && p.exitTree.Tree != nil
@@ -112,7 +112,7 @@ package bridgesync
 
 // ---- claim details from the bridge call (C20): a call is accepted only if its global index equals the event's
 // (full-width comparison); on acceptance every recorded detail comes from that call's arguments and the sender.
-//@ func (c *Claim) decodeEtrogCalldata
+//@ func (c *Claim) decodeEtrogCalldata (c, senderAddr, data)
 //@   props C20
 //@   requires c != nil && c.GlobalIndex != nil && len(data) >= 11
 //@   requires typeIs(data[2], *big.Int) ==> cast(data[2], *big.Int) != nil
@@ -126,7 +126,7 @@ package bridgesync
 //@   ensures[proofs-of-that-call] result0 ==> forall(k, 0, 32, c.ProofLocalExitRoot[k] == hashOf(unbox(data[0], [32][32]byte)[k]) && c.ProofRollupExitRoot[k] == hashOf(unbox(data[1], [32][32]byte)[k]))
 //@   loop 0 unroll 32
 
-//@ func (c *Claim) decodePreEtrogCalldata
+//@ func (c *Claim) decodePreEtrogCalldata (c, senderAddr, data)
 //@   props C20
 //@   requires c != nil && c.GlobalIndex != nil && len(data) >= 10
 //@   modifies c.ProofLocalExitRoot, c.ProofRollupExitRoot, c.MainnetExitRoot, c.RollupExitRoot, c.DestinationNetwork, c.Metadata, c.GlobalExitRoot, c.FromAddress, c.IsMessage
@@ -163,7 +163,7 @@ package bridgesync
 //@ interface functype:func(github.com/agglayer/aggkit/bridgesync.call)(bool,error)@bridgesync.findCall (c)
 //@   modifies region("bridgesync.Claim.ProofLocalExitRoot"), region("bridgesync.Claim.ProofRollupExitRoot"), region("bridgesync.Claim.MainnetExitRoot"), region("bridgesync.Claim.RollupExitRoot"), region("bridgesync.Claim.DestinationNetwork"), region("bridgesync.Claim.Metadata"), region("bridgesync.Claim.GlobalExitRoot"), region("bridgesync.Claim.FromAddress"), region("bridgesync.Claim.IsMessage"), lastCbFound, cbCalls
 //@   ensures cbCalls == old(cbCalls) + 1 && lastCbFound == (result0 && result1 == nil)
-//@ func findCall
+//@ func findCall (rootCall, targetAddr, callback, logger)
 //@   props C20
 //@   nilcalls
 //@   requires logger != nil
@@ -180,7 +180,7 @@ package bridgesync
 
 // ---- reading the events of a block range back (C02, C03, C05: "every exit exactly once and in chain order" rests on
 // this statement's range condition and ordering; assumed semantics A5, text pinned). The table name is the caller's.
-//@ func (p *processor) queryBlockRange
+//@ func (p *processor) queryBlockRange (p, tx, fromBlock, toBlock, table)
 //@   props C02 C03 C05
 //@   trusted
 //@   modifies nothing
@@ -199,18 +199,18 @@ package bridgesync
 //@   ensures bsLastBlockScanFaults == old(bsLastBlockScanFaults) + ite(result != nil && !isErr(result, sql.ErrNoRows), 1, 0)
 //@   ensures result == nil ==> bsLastBlockRow >= 0 && *cast(dest[0], *uint64) == bsLastBlockRow
 //@   ensures (result != nil && isErr(result, sql.ErrNoRows)) ==> bsLastBlockRow == -1
-//@ func (p *processor) getLastProcessedBlockWithTx
+//@ func (p *processor) getLastProcessedBlockWithTx (p, tx)
 //@   props C02 C03 C05
 //@   requires tx != nil
 //@   modifies bsLastBlockScanFaults
 //@   sqltext "SELECT num FROM block ORDER BY num DESC LIMIT 1;"
 //@   ensures[the-highest-block-row-or-zero-when-empty] result1 == nil ==> result0 == ite(bsLastBlockRow == -1, 0, bsLastBlockRow) && bsLastBlockRow >= -1
 //@   ensures[a-storage-failure-is-reported] result1 == nil ==> bsLastBlockScanFaults == old(bsLastBlockScanFaults)
-//@ func (p *processor) GetBridges
+//@ func (p *processor) GetBridges (p, ctx, fromBlock, toBlock)
 //@   props C02 C03
 //@   trusted
 //@   consttext "bridge"
-//@ func (p *processor) GetClaims
+//@ func (p *processor) GetClaims (p, ctx, fromBlock, toBlock)
 //@   props C02 C03
 //@   trusted
 //@   consttext "claim"
@@ -229,13 +229,13 @@ package bridgesync
 //@   modifies parsedClaim
 //@   ensures result1 != nil ==> result0 == nil
 //@   ensures result1 == nil ==> result0 != nil && parsedClaim == result0 && result0.GlobalIndex != nil
-//@ func extractCall
+//@ func extractCall (client, contractAddr, txHash, logger)
 //@   trusted
 //@   modifies nothing
 //@   ensures result1 != nil ==> result0 == nil
 //@   ensures result1 == nil ==> result0 != nil
 
-//@ func buildBridgeEventHandler$1
+//@ func buildBridgeEventHandler$1 (b, l)
 //@   props C01 C03 C05
 //@   requires b != nil && contract != nil
 //@   modifies b.Events, parsedBridge
@@ -243,7 +243,7 @@ package bridgesync
 //@   ensures[one-event-per-log] result == nil ==> len(b.Events) == old(len(b.Events)) + 1 && forall(k, 0, old(len(b.Events)), b.Events[k] == old(b.Events[k]))
 //@   ensures[the-bridge-is-the-decoded-event-at-the-logs-position] result == nil ==> typeIs(b.Events[len(b.Events) - 1], Event) && unbox(b.Events[len(b.Events) - 1], Event).Bridge != nil && unbox(b.Events[len(b.Events) - 1], Event).Claim == nil && unbox(b.Events[len(b.Events) - 1], Event).Bridge.BlockNum == b.Num && unbox(b.Events[len(b.Events) - 1], Event).Bridge.BlockPos == l.Index && unbox(b.Events[len(b.Events) - 1], Event).Bridge.LeafType == parsedBridge.LeafType && unbox(b.Events[len(b.Events) - 1], Event).Bridge.OriginNetwork == parsedBridge.OriginNetwork && unbox(b.Events[len(b.Events) - 1], Event).Bridge.OriginAddress == parsedBridge.OriginAddress && unbox(b.Events[len(b.Events) - 1], Event).Bridge.DestinationNetwork == parsedBridge.DestinationNetwork && unbox(b.Events[len(b.Events) - 1], Event).Bridge.DestinationAddress == parsedBridge.DestinationAddress && unbox(b.Events[len(b.Events) - 1], Event).Bridge.Amount == parsedBridge.Amount && unbox(b.Events[len(b.Events) - 1], Event).Bridge.Metadata == parsedBridge.Metadata && unbox(b.Events[len(b.Events) - 1], Event).Bridge.DepositCount == parsedBridge.DepositCount && unbox(b.Events[len(b.Events) - 1], Event).Bridge.TxHash == l.TxHash
 
-//@ func buildClaimEventHandler$1
+//@ func buildClaimEventHandler$1 (b, l)
 //@   props C03 C05 C20
 //@   requires b != nil && contract != nil && (syncFullClaims ==> client != nil && logger != nil)
 //@   modifies b.Events, parsedClaim, region("bridgesync.Claim.ProofLocalExitRoot"), region("bridgesync.Claim.ProofRollupExitRoot"), region("bridgesync.Claim.MainnetExitRoot"), region("bridgesync.Claim.RollupExitRoot"), region("bridgesync.Claim.DestinationNetwork"), region("bridgesync.Claim.Metadata"), region("bridgesync.Claim.GlobalExitRoot"), region("bridgesync.Claim.FromAddress"), region("bridgesync.Claim.IsMessage")
@@ -272,7 +272,7 @@ package bridgesync
 //@   modifies nothing
 //@   ensures result1 == nil ==> len(result0) >= 11 && off(result0) == 0 && (typeIs(result0[2], *big.Int) ==> cast(result0[2], *big.Int) != nil)
 
-//@ func (c *Claim) tryDecodeClaimCalldata
+//@ func (c *Claim) tryDecodeClaimCalldata (c, senderAddr, input)
 //@   props C20 C03
 //@   requires c != nil && c.GlobalIndex != nil
 //@   modifies c.ProofLocalExitRoot, c.ProofRollupExitRoot, c.MainnetExitRoot, c.RollupExitRoot, c.DestinationNetwork, c.Metadata, c.GlobalExitRoot, c.FromAddress, c.IsMessage
@@ -286,7 +286,7 @@ package bridgesync
 //@   ensures[what-the-event-said-is-untouched] c.GlobalIndex == old(c.GlobalIndex) && c.BlockNum == old(c.BlockNum) && c.BlockPos == old(c.BlockPos) && c.OriginNetwork == old(c.OriginNetwork) && c.OriginAddress == old(c.OriginAddress) && c.DestinationAddress == old(c.DestinationAddress) && c.Amount == old(c.Amount) && c.TxHash == old(c.TxHash) && c.BlockTimestamp == old(c.BlockTimestamp)
 
 // the callback of the search (the only one in the module): reverted frames are skipped without looking at them
-//@ func (c *Claim) setClaimCalldata$1
+//@ func (c *Claim) setClaimCalldata$1 (call)
 //@   props C20
 //@   requires c != nil && c.GlobalIndex != nil
 //@   modifies c.ProofLocalExitRoot, c.ProofRollupExitRoot, c.MainnetExitRoot, c.RollupExitRoot, c.DestinationNetwork, c.Metadata, c.GlobalExitRoot, c.FromAddress, c.IsMessage
@@ -301,7 +301,7 @@ package bridgesync
 //@ interface github.com/agglayer/aggkit/types.RPCClienter.Call (self, result, method, args)
 //@   requires typeIs(result, *call) && cast(result, *call) != nil
 //@   modifies cast(result, *call).From, cast(result, *call).To, cast(result, *call).Value, cast(result, *call).Err, cast(result, *call).Input, cast(result, *call).Calls
-//@ func (c *Claim) setClaimCalldata
+//@ func (c *Claim) setClaimCalldata (c, client, bridge, txHash, logger)
 //@   props C20 C03
 //@   requires c != nil && c.GlobalIndex != nil && client != nil && logger != nil
 //@   modifies region("bridgesync.Claim.ProofLocalExitRoot"), region("bridgesync.Claim.ProofRollupExitRoot"), region("bridgesync.Claim.MainnetExitRoot"), region("bridgesync.Claim.RollupExitRoot"), region("bridgesync.Claim.DestinationNetwork"), region("bridgesync.Claim.Metadata"), region("bridgesync.Claim.GlobalExitRoot"), region("bridgesync.Claim.FromAddress"), region("bridgesync.Claim.IsMessage"), lastCbFound, cbCalls
@@ -314,7 +314,7 @@ package bridgesync
 //@   modifies parsedClaimV1
 //@   ensures result1 != nil ==> result0 == nil
 //@   ensures result1 == nil ==> result0 != nil && parsedClaimV1 == result0
-//@ func buildClaimEventHandlerPreEtrog$1
+//@ func buildClaimEventHandlerPreEtrog$1 (b, l)
 //@   props C03 C05 C20
 //@   requires b != nil && contract != nil && (syncFullClaims ==> client != nil && logger != nil)
 //@   modifies b.Events, parsedClaimV1, region("bridgesync.Claim.ProofLocalExitRoot"), region("bridgesync.Claim.ProofRollupExitRoot"), region("bridgesync.Claim.MainnetExitRoot"), region("bridgesync.Claim.RollupExitRoot"), region("bridgesync.Claim.DestinationNetwork"), region("bridgesync.Claim.Metadata"), region("bridgesync.Claim.GlobalExitRoot"), region("bridgesync.Claim.FromAddress"), region("bridgesync.Claim.IsMessage")
@@ -323,7 +323,7 @@ package bridgesync
 //@   ensures[the-claim-is-the-decoded-event-at-the-logs-position] result == nil ==> typeIs(b.Events[len(b.Events) - 1], Event) && unbox(b.Events[len(b.Events) - 1], Event).Claim != nil && unbox(b.Events[len(b.Events) - 1], Event).Bridge == nil && unbox(b.Events[len(b.Events) - 1], Event).Claim.BlockNum == b.Num && unbox(b.Events[len(b.Events) - 1], Event).Claim.BlockPos == l.Index && unbox(b.Events[len(b.Events) - 1], Event).Claim.GlobalIndex != nil && bigval(unbox(b.Events[len(b.Events) - 1], Event).Claim.GlobalIndex) == parsedClaimV1.Index && unbox(b.Events[len(b.Events) - 1], Event).Claim.OriginNetwork == parsedClaimV1.OriginNetwork && unbox(b.Events[len(b.Events) - 1], Event).Claim.OriginAddress == parsedClaimV1.OriginAddress && unbox(b.Events[len(b.Events) - 1], Event).Claim.DestinationAddress == parsedClaimV1.DestinationAddress && unbox(b.Events[len(b.Events) - 1], Event).Claim.Amount == parsedClaimV1.Amount
 
 // the exit-tree proof served by the syncer's entry point (C08, C12; fail-stop behaviour: schema above)
-//@ func (s *BridgeSync) GetProof
+//@ func (s *BridgeSync) GetProof (s, ctx, depositCount, localExitRoot)
 //@   props C08 C12
 //@   requires s != nil && s.processor != nil && s.processor.exitTree != nil && s.processor.exitTree.Tree != nil && len(s.processor.exitTree.Tree.zeroHashes) == 33
 //@   ensures[proof-of-that-deposit-to-that-root] (!old(s.processor.halted) && result1 == nil && forall(h, 1, 33, rhtHas(s.processor.exitTree.Tree)[desc(rhtL(s.processor.exitTree.Tree), rhtR(s.processor.exitTree.Tree), localExitRoot, depositCount, h)])) ==> foldUp(desc(rhtL(s.processor.exitTree.Tree), rhtR(s.processor.exitTree.Tree), localExitRoot, depositCount, 0), result0, depositCount, 32) == localExitRoot
